@@ -428,6 +428,79 @@ class Program:
     def is_new_class(self, ci):
         return ci.name not in self._reference()[1]
 
+    def returns_sequence(self, name):
+        """Every repository function / method called `name` returns a list on every path (literal, comprehension,
+        list(...) / sorted(...), a concatenation of those, or a local bound only to such)."""
+        cache = self.__dict__.setdefault("_retseq", {})
+        if name in cache:
+            return cache[name]
+        cache[name] = False
+        fns = [f for f in self.functions.values() if f.name == name and "@" not in f.qualname]
+        if not fns:
+            return False
+
+        def is_seq(e, defs, depth=0):
+            if isinstance(e, (ast.List, ast.ListComp)):
+                return True
+            if isinstance(e, ast.Call) and isinstance(e.func, ast.Name) and e.func.id in ("list", "sorted"):
+                return True
+            if isinstance(e, ast.BinOp) and isinstance(e.op, ast.Add):
+                return is_seq(e.left, defs, depth) or is_seq(e.right, defs, depth)
+            if isinstance(e, ast.Name) and depth < 3 and e.id in defs:
+                return all(is_seq(v, defs, depth + 1) for v in defs[e.id])
+            return False
+
+        ok = True
+        for f in fns:
+            defs = {}
+            for n in ast.walk(f.node):
+                if isinstance(n, ast.Assign) and len(n.targets) == 1 and isinstance(n.targets[0], ast.Name):
+                    defs.setdefault(n.targets[0].id, []).append(n.value)
+            rets = [n for n in ast.walk(f.node) if isinstance(n, ast.Return)]
+            if not rets or not all(r.value is not None and is_seq(r.value, defs) for r in rets):
+                ok = False
+        cache[name] = ok
+        return ok
+
+    def delegates(self):
+        """{qualname of a helper newer than the rules: (F, positions)} where the reference function F hands its work to
+        the helper with `return helper(<parameters of F>)`: helper(a_0, a_1, ...) is F called with a_j as its parameter
+        number positions[j].  Lets a recursion that now runs through the helper be read as the recursion of F."""
+        if getattr(self, "_delegates", None) is None:
+            out = {}
+            for F in self.functions.values():
+                if self.is_new_function(F):
+                    continue
+                a = F.node.args
+                params = [x.arg for x in a.posonlyargs + a.args]
+                for n in ast.walk(F.node):
+                    if not (isinstance(n, ast.Return) and isinstance(n.value, ast.Call) and not n.value.keywords):
+                        continue
+                    c = n.value
+                    if not all(isinstance(x, ast.Name) and x.id in params for x in c.args):
+                        continue
+                    if isinstance(c.func, ast.Name):
+                        G = self.resolve_function(c.func.id, F.module)
+                        if G is None or G.cls is not None:
+                            continue
+                    elif isinstance(c.func, ast.Attribute) and isinstance(c.func.value, ast.Name) and F.cls is not None and c.func.value.id in (F.cls.name, "cls", "self"):
+                        G = self.method(F.cls, c.func.attr)
+                        if G is None or "staticmethod" not in G.decorators:
+                            continue
+                    else:
+                        continue
+                    if not self.is_new_function(G):
+                        continue
+                    names = [x.id for x in c.args]
+                    if len(set(names)) != len(names) or len(G.params) != len(names):
+                        continue
+                    if G.qualname in out and out[G.qualname][0] is not F:
+                        out[G.qualname] = None  # handed to by two different functions: ambiguous
+                    elif G.qualname not in out:
+                        out[G.qualname] = (F, [params.index(x) for x in names])
+            self._delegates = {k: v for k, v in out.items() if v is not None}
+        return self._delegates
+
     def record_fields(self, name, module, depth=0):
         """Field names if `name`, as seen from `module`, is a record type: `X = namedtuple("X", [...])`, a
         `typing.NamedTuple` subclass, or a `@dataclass` without a hand-written __init__.  None otherwise."""
